@@ -353,6 +353,9 @@ def final(F, rep, T):
 LUA_RESERVED = luaparse.RESERVED
 
 
+LUA_ESCAPES = {"\\n": "\n", "\\r": "\r", "\\t": "\t", "\\\\": "\\", '\\"': '"', "\\0": "\0"}
+
+
 def lex_safe(F, rep, T):
     tk = toks.TokenSpec(F)
     rep.floor("LEX-SAFE", "token patterns", len(tk.rules), 70)
@@ -363,8 +366,16 @@ def lex_safe(F, rep, T):
         rep.anchor_missing("Token::String / IR::Str")
     else:
         chars = tk.payload_chars("String")
-        bad = sorted(c for c in ('"', "\\", "\n", "\r") if c in chars)
-        quoted = luatpl.render(s["value"]) == '"{raw:1}"'
+        # characters the emitter writes as escapes (`s.replace('\n', "\\n")`): not raw any more - provided the escape is one Lua reads
+        # back as that character
+        escaped = set()
+        for part in s["value"] or []:
+            if isinstance(part, tuple) and part[0] == "raw-escaped":
+                for frm, to in part[2]:
+                    if LUA_ESCAPES.get(to) == frm:
+                        escaped.add(frm)
+        bad = sorted(c for c in ('"', "\\", "\n", "\r") if c in chars and c not in escaped)
+        quoted = luatpl.render(s["value"]) in ('"{raw:1}"', '"{raw-escaped:1}"')
         arms = [a for a in T.expr if a["label"] == "Str" and a["items"]]
         direct = bool(arms) and any(it[0] == "op" and it[1] == "Str" and it[2][1] == ("ast", "0") for it in arms[0]["items"])
         # the instance is "these characters can reach the Lua string raw": a known finding for backslash / line break must not
